@@ -113,7 +113,7 @@ def unmapped_rec(d, contig='', start=-1):
 
 def gen_bam(rng, scene):
     bl, bed = scene
-    anchors = [(b['contig'], b[k]) for b in bl + bed for k in ('start', 'end')]
+    anchors = [(b['contig'], b[k]) for b in bl + bl + bl + bed for k in ('start', 'end')]
     anchors += [(c, m) for c, ln in CONTIGS for m in (0, 50, 100, ln)]
     reads = []
     n = rng.randint(3, 14)
@@ -181,7 +181,7 @@ def to_segment(header, d):
     for k, v in d['nums'].items():
         tags[k] = int(v)
     return bamgen.make_read(
-        header, d['name'], d['contig'] or None, d['start'], 'ACGT' * 20 if False else ('ACGTTGCA' * 10)[:d['qlen']],
+        header, d['name'], d['contig'] or None, d['start'], ('ACGTTGCA' * 10)[:d['qlen']],
         cigar=d['cigar'] or None, read1=d['mate'] == 1, read2=d['mate'] == 2, paired=d['paired'], proper=d['proper'],
         mate_contig=d['mcontig'] or None, mate_pos=d['mpos'] if d['mcontig'] else None, mate_unmapped=d['mate_unmapped'],
         unmapped=not d['mapped'], mapq=d['mapq'], dup=d['dup'], qcfail=d['qcfail'], tags=tags)
@@ -252,6 +252,8 @@ def gen_optsets(rng, scene, n, pair_cycle, km_cycle):
             on = [rng.choice(SWITCHES)]
         else:
             on = [s for s in SWITCHES if rng.random() < 0.3]
+        if k > 0 and 'blacklist' not in on and rng.random() < 0.2:
+            on.append('blacklist')
         for sw in on:
             switch_on(rng, o, sw, scene)
         set_keymode(rng, o, next(km_cycle), scene)
